@@ -52,7 +52,7 @@ PROPS = {
     "C12": dict(streams=[ALGO2, HIST], oracles=[dict(name="safety", profiles=["debug", "release"])],
                 assumptions=["totality is a theorem for mst, primitive and (under strict weak order + reducibility) nnchain; for generic, nnchain on floats with arithmetic methods, and finiteness of arithmetic methods it is measured, not proved"]),
     "C14": dict(streams=[("cost", ["debug"])], translators=["tables"], oracles=[dict(name="cost", profiles=["debug"])],
-                assumptions=["nnchain: the bound is measured (count equality with the model + adversarial search), only mst has a theorem"]),
+                assumptions=["nnchain bound theorem needs a strict weak order and reducibility (single/complete generic; average/weighted/ward over Q); on floats with arithmetic methods the bound is measured (count equality with the model + adversarial search)"]),
     "C07": dict(
         streams=[ALGO, HIST],
         translators=["formulas"],
